@@ -78,6 +78,9 @@ class System:
         # non-default find_peaks kwargs that change WHICH peak is selected (the highest peaks are filtered out)
         for r in ((None, None), (self.freq[1], self.freq[F - 2])):
             ops.append(dict(op="U", rng=list(r), kw={"height": [None, 3.6]}))
+        # a range update whose peak options scipy refuses (ValueError): the object must stay as it was
+        for r in ((self.freq[1], self.freq[F - 2]), (None, self.freq[3])):
+            ops.append(dict(op="U", rng=list(r), kw={"distance": 0}))
         for n in (0.5, 1, 2):
             for dfn, dmc in itertools.product(("lognormal", "normal"), repeat=2):
                 for r in ((None, None), (self.freq[1], self.freq[F - 2])):
@@ -154,7 +157,10 @@ class System:
                 tuple(np.asarray(o.valid_peak_boolean_mask).tolist()),
                 tuple(None if v is None else float(v) for v in h.rng),
                 repr(h.kw or None),
-                tuple(_f(v) for v in o._main_peak_frq))
+                tuple(_f(v) for v in o._main_peak_frq),
+                # the range the object itself has recorded (differs from the driver's only after a refused update)
+                tuple(None if v is None else float(v) for v in (o._search_range_in_hz or ())),
+                repr(o.meta.get("search_range_in_hz")))
 
     def observe(self, h):
         o = h.obj
